@@ -170,6 +170,31 @@ Proof.
 Qed.
 Print Assumptions C05_located_unique.
 
+(* "exactly one": the descents enumerated for a cell are pairwise distinct when no universe list
+   repeats a cell, which is the case for by_universe of a table without duplicate keys (a Python
+   dict); with C05_pot_fill_located (one returned cell per enumerated descent, Verdict) this
+   gives exactly one returned cell standing for the located descent *)
+Theorem C05_descents_distinct :
+  forall (T surf : Type) (s : state T surf) du,
+  (forall u, NoDup (du_get u du)) ->
+  forall key chs, Paths T surf s du key chs -> NoDup chs.
+Proof.
+  intros T surf s du Hdu key chs HP.
+  exact (proj1 (proj1 (Paths_NoDup T surf s du Hdu) key chs HP)).
+Qed.
+Print Assumptions C05_descents_distinct.
+
+Theorem C05_by_universe_lists :
+  forall (T : Type) (cells : list (Z * cell T)) u,
+  (NoDup (map fst cells) -> NoDup (du_get u (by_universe cells))) /\
+  (forall c, In c (du_get u (by_universe cells)) -> exists cl, dget c cells = Some cl).
+Proof.
+  intros T cells u. split.
+  - apply by_universe_NoDup.
+  - intros c. apply by_universe_closed.
+Qed.
+Print Assumptions C05_by_universe_lists.
+
 (* non-vacuity: the executable instance of the correspondence check obeys both laws (points on a
    line), and a deck with two levels of universes (fill transformation at level 0, TRCL-only
    fill at level 1) satisfies every hypothesis above; the point x = 9 is located along
